@@ -406,7 +406,20 @@ def rule_special_hosts(ctx, rule):
     hm = ctx.repo.mod("has_special_host")
     fn = hm.func("is_special_host").node
     ok = "SPECIAL_HOSTS_RE.match(hostname)" in unparse(fn) or "re.match(SPECIAL_HOSTS_RE, hostname)" in unparse(fn)
-    ctx.ob(rule, "is_special_host/matches-the-hostname", ok, "is_special_host does not apply SPECIAL_HOSTS_RE.match to the hostname", hm.site(fn))
+
+    def special_cells():
+        # the predicate interpreted on one host per class (consulted only when the call is spelled another way)
+        from ..microeval import run_function, Raised
+        ref = hm.func("is_special_host")
+        out = []
+        for h, want in (("localhost", True), ("LOCALHOST", True), ("127.0.0.1", True), ("127.0.0.1:8080", True), ("::1", True), ("2001:db8::1", True), ("a.com", False), ("localhost.a.com", False), ("1.2.3.4.a.com", False), ("abc", False)):
+            try:
+                got = run_function(ctx.repo, ref, [h])
+            except Raised as e:
+                got = "raises " + e.name
+            out.append(("is_special_host(%r) -> %r" % (h, got), got is want))
+        return out
+    ctx.ob(rule, "is_special_host/matches-the-hostname", ok, "is_special_host does not apply SPECIAL_HOSTS_RE.match to the hostname", hm.site(fn), cells=special_cells)
 
 
 def netloc_template(ctx, rule):
